@@ -428,10 +428,28 @@ func checkC10(r *Run) {
 					if n.Int64() < 100 {
 						body = strings.Repeat("b", int(n.Int64()))
 					}
-					for _, fl := range []uint8{0, sipsp.SIPMsgSkipBodyF} {
-						if body == "" && n.Sign() > 0 && fl == 0 {
-							continue
+					// every flag set x {whole body (if small), part of it, none of it}: whatever verdict the framing gives,
+					// a successful parse reports the numbers that are written
+					type fb struct {
+						fl   uint8
+						body string
+					}
+					var fbs []fb
+					for fl := uint8(0); fl < 8; fl++ {
+						fbs = append(fbs, fb{fl, body})
+						if n.Sign() > 0 {
+							part := "bb"
+							if n.Int64() <= 2 {
+								part = "b"[:n.Int64()-1]
+							}
+							fbs = append(fbs, fb{fl, part})
+							if part != "" {
+								fbs = append(fbs, fb{fl, ""})
+							}
 						}
+					}
+					for _, x := range fbs {
+						fl, body := x.fl, x.body
 						buf := []byte(firsts[i] + "\r\n" + hdrs + body)
 						var m sipsp.PSIPMsg
 						m.Init(nil, nil, nil)
